@@ -141,12 +141,17 @@ class Repo:
         return sorted(paths)
 
     def _load(self):
+        sources = {}
         for rel in self._source_paths():
             if rel in self.overlay:
-                src = self.overlay[rel]
+                sources[rel] = self.overlay[rel]
             else:
                 with open(os.path.join(self.root, rel), encoding='utf-8') as f:
-                    src = f.read()
+                    sources[rel] = f.read()
+        if not os.environ.get('VERIF_NO_NORMALIZE'):
+            from .normalize import scan_new_tuples
+            scan_new_tuples(sources)
+        for rel, src in sources.items():
             unit = Unit(rel, src)
             self.units[rel] = unit
             self._index(unit, unit.tree.body, '', None, None)
